@@ -8,9 +8,11 @@ import (
 	"encoding/json"
 	"fmt"
 	"math/rand"
+	"net"
 	"reflect"
 	"sort"
 	"strings"
+	"time"
 
 	"github.com/ovn-org/libovsdb/ovsdb"
 )
@@ -684,6 +686,99 @@ func runC19(r *Run) {
 		c19Correspond(r, kind, text, out, val, cs)
 	}
 	c19Transact(r)
+	c19Raw(r)
+}
+
+// c19Raw: raw JSON-RPC over the server's socket: a transact request whose parameters are structurally
+// corrupted, followed by an echo on the same connection. The server must answer the echo: a panic in the
+// connection's goroutine would take the whole process down (the case in flight is recorded for that event).
+func c19Raw(r *Run) {
+	n := 60
+	if r.Tier == "thorough" {
+		n = 1500
+	}
+	ts := genTxnSchema(r.Rng, true)
+	rig, err := newRig(ts)
+	if err != nil {
+		return
+	}
+	defer rig.Close()
+	sh := newShadow()
+	for k := 0; k < 3; k++ {
+		txn := genTxn(r.Rng, ts, sh, 3)
+		clampWaits(&txn)
+		rig.im.transact(txn.Ops, nil)
+		sh.load(rig.im.dump())
+	}
+	for i := 0; i < n; i++ {
+		txn := genTxn(r.Rng, ts, sh, 1+r.Rng.Intn(4))
+		clampWaits(&txn)
+		var oo []interface{}
+		for _, o := range txn.Ops {
+			b, _ := json.Marshal(o.toOvs())
+			var t interface{}
+			_ = json.Unmarshal(b, &t)
+			oo = append(oo, t)
+		}
+		// JSON-RPC requires params to be an array: corrupt its elements (the database name, the operations)
+		list := append([]interface{}{"db"}, oo...)
+		for k := 1 + r.Rng.Intn(2); k > 0; k-- {
+			i := r.Rng.Intn(len(list))
+			list[i] = corrupt(r.Rng, list[i])
+		}
+		if r.Rng.Intn(6) == 0 {
+			list = list[:r.Rng.Intn(len(list)+1)]
+		}
+		var params interface{} = list
+		// waits must not sleep: force a zero timeout wherever an operation object says "wait"
+		forceZeroTimeout(params)
+		req, _ := json.Marshal(map[string]interface{}{"method": "transact", "params": params, "id": 1})
+		cs := map[string]interface{}{"model": ts.modelJSON(), "request": string(req)}
+		r.Case("raw-rpc", string(req))
+		r.InFlight("raw-rpc", cs, "the server crashed on a raw transact request")
+		conn, err := net.DialTimeout("unix", rig.sock, 2*time.Second)
+		if err != nil {
+			r.Landed()
+			r.Violation("raw-rpc", cs, err.Error(), "connection", true, "the server no longer accepts connections", "")
+			return
+		}
+		_ = conn.SetDeadline(time.Now().Add(5 * time.Second))
+		_, _ = conn.Write(req)
+		_, _ = conn.Write([]byte(`{"method":"echo","params":["still-there"],"id":2}`))
+		dec := json.NewDecoder(conn)
+		gotEcho := false
+		for k := 0; k < 4 && !gotEcho; k++ {
+			var resp map[string]interface{}
+			if err := dec.Decode(&resp); err != nil {
+				break
+			}
+			if id, ok := resp["id"].(float64); ok && id == 2 && resp["error"] == nil {
+				gotEcho = true
+			}
+		}
+		conn.Close()
+		r.Landed()
+		if !gotEcho {
+			r.Violation("raw-rpc", cs, "no echo reply within 5s", "echo reply", true, "after an ill-formed transact request the server does not answer an echo on the same connection", "")
+			return
+		}
+	}
+}
+
+func forceZeroTimeout(x interface{}) {
+	switch t := x.(type) {
+	case []interface{}:
+		for _, e := range t {
+			forceZeroTimeout(e)
+		}
+	case map[string]interface{}:
+		if t["op"] == "wait" || t["timeout"] != nil {
+			t["timeout"] = 0
+		}
+		for _, e := range t {
+			forceZeroTimeout(e)
+		}
+	}
 }
 
 // c19Scripted: degenerate requests written out by hand (members an operation
